@@ -224,7 +224,11 @@ func cmdCheck(args []string) int {
 				vc.instName = tf.Name()
 			}
 			vcs = append(vcs, vc)
-			funcsUnder = append(funcsUnder, k+instSuffix(tf, fn))
+			label := k + instSuffix(tf, fn)
+			if c.CallsitesOnly {
+				label += " (call-site clauses and must- postconditions only; the rest of its contract is assumed)"
+			}
+			funcsUnder = append(funcsUnder, label)
 		}
 	}
 	if cfg.LockSweep && *only == "" || cfg.LockSweep && *only != "" {
